@@ -37,12 +37,14 @@ pub fn canon(s: &Snap) -> Result<Canon, String> {
         }
         key.insert(*id, k);
     }
-    // loop key: member names (existing `v..` nodes only: removed nodes linger in `loop_nodes`)
+    // loop key: member names (existing `v..` nodes only: removed nodes linger in `loop_nodes`;
+    // unions and tees are left out because elimination may remove them)
     let mut lkey: BTreeMap<u64, String> = BTreeMap::new();
     for (lid, l) in &s.loops {
         let mut m: Vec<&str> = l
             .nodes
             .iter()
+            .filter(|n| s.nodes.get(*n).map(|x| x.name != "union" && x.name != "tee").unwrap_or(false))
             .filter_map(|n| key.get(n))
             .map(|k| k.as_str())
             .filter(|k| k.starts_with('v'))
